@@ -4,9 +4,12 @@
 // E1 (sequential): the real tagclient cluster client (do / doOnce -> real
 // singleClient -> real httputil.Send) and the real blobclient.Locations (real
 // HTTPProvider / HTTPClient) run against a fake http.RoundTripper that counts
-// the hosts contacted; the answer to every contact (ok, network error, 404,
-// 500, ...) is an environment choice (vrt.Choose), so the explorer enumerates
-// every failure pattern of every host list size.
+// the hosts contacted; the answer to every contact is an environment choice
+// (vrt.Choose) over every answer class the clients (or httputil) can tell
+// apart: 200, connection refused, client timeout, 201, 202, 403, 404, 409,
+// 429, 500, 502, 503, 504, 200 with an unparsable body, 200 whose body breaks
+// off (plus next-page / 200-without-locations where the call has them), so the
+// explorer enumerates every failure pattern of every host list size.
 //
 // Which hosts are picked is decided by Go's randomised map iteration inside
 // stringset; the oracle is a relation that must hold for every draw (bounded
@@ -49,23 +52,75 @@ func (l *fakeList) Resolve() stringset.Set { return l.cur.Copy() }
 func (l *fakeList) Failed(addr string)     { l.failed = append(l.failed, addr) }
 
 type answer struct {
-	name string
-	// terminal: the client is expected to stop after this answer (information
-	// only; not part of the oracle).
-	status int
-	net    bool
-	page   bool // 200 + a next-page link (list calls)
-	noLocs bool // 200 without the Origin-Locations header
+	name    string
+	status  int
+	net     bool // connection-level failure (RoundTrip error)
+	timeout bool // with net: the error is a net.Error with Timeout() == true (slow host, client gave up)
+	page    bool // 200 + a next-page link (list calls)
+	noLocs  bool // 200 without the Origin-Locations header
+	garbage bool // 200 with a body the caller cannot parse
+	bodyErr bool // 200 whose body breaks off with a read error
 }
 
+// The per-contact answer alphabet. Index 0 is the default (ok), index 1 the
+// plain network error (the determinism proof replays [1,1,1]).
 var (
-	ansOK     = answer{name: "ok", status: 200}
-	ansNet    = answer{name: "neterr", net: true}
-	ans404    = answer{name: "404", status: 404}
-	ans500    = answer{name: "500", status: 500}
-	ansPage   = answer{name: "ok+nextpage", status: 200, page: true}
-	ansNoLocs = answer{name: "ok-nolocs", status: 200, noLocs: true}
+	ansOK      = answer{name: "ok", status: 200}
+	ansNet     = answer{name: "neterr", net: true}
+	ansTimeout = answer{name: "timeout", net: true, timeout: true}
+	ans201     = answer{name: "201", status: 201}
+	ans202     = answer{name: "202", status: 202}
+	ans403     = answer{name: "403", status: 403}
+	ans404     = answer{name: "404", status: 404}
+	ans409     = answer{name: "409", status: 409}
+	ans429     = answer{name: "429", status: 429}
+	ans500     = answer{name: "500", status: 500}
+	ans502     = answer{name: "502", status: 502}
+	ans503     = answer{name: "503", status: 503}
+	ans504     = answer{name: "504", status: 504}
+	ansPage    = answer{name: "ok+nextpage", status: 200, page: true}
+	ansNoLocs  = answer{name: "ok-nolocs", status: 200, noLocs: true}
+	ansGarbage = answer{name: "ok-garbage", status: 200, garbage: true}
+	ansBodyErr = answer{name: "ok-bodyerr", status: 200, bodyErr: true}
 )
+
+// statusAlphabet: one member for every class httputil and the clients tell
+// apart (2xx accepted, NetworkError with and without Timeout, IsCreated,
+// IsAccepted, IsForbidden, IsNotFound, IsConflict, each of the four
+// IsRetryable codes, a plain 5xx).
+func statusAlphabet() []answer {
+	return []answer{ansOK, ansNet, ansTimeout, ans201, ans202, ans403, ans404, ans409, ans429, ans500, ans502, ans503, ans504}
+}
+
+// tag cluster client calls: the status alphabet + the two broken-200 answers.
+func tagAlphabet() []answer { return append(statusAlphabet(), ansGarbage, ansBodyErr) }
+
+// list calls which follow next-page links themselves.
+func tagListAlphabet() []answer { return append(tagAlphabet(), ansPage) }
+
+// blobclient.Locations: the status alphabet + 200 without the locations header.
+func locAlphabet() []answer { return append(statusAlphabet(), ansNoLocs) }
+
+// two-request (relist) scenarios: one representative per error type httputil
+// constructs (accepted 200, NetworkError plain / timeout, StatusError
+// definitive 4xx / definitive 5xx / retryable 429 / retryable 5xx).
+func tagRelistAlphabet() []answer {
+	return []answer{ansOK, ansNet, ansTimeout, ans404, ans500, ans429, ans503}
+}
+func locRelistAlphabet() []answer { return []answer{ansOK, ansNet, ans404, ans503, ansNoLocs} }
+
+func isRetryableName(n string) bool { return n == "429" || n == "502" || n == "503" || n == "504" }
+
+type timeoutErr struct{ host string }
+
+func (e timeoutErr) Error() string   { return "dial tcp " + e.host + ": i/o timeout" }
+func (e timeoutErr) Timeout() bool   { return true }
+func (e timeoutErr) Temporary() bool { return true }
+
+type brokenBody struct{}
+
+func (brokenBody) Read([]byte) (int, error) { return 0, errors.New("unexpected EOF (injected)") }
+func (brokenBody) Close() error               { return nil }
 
 // execState is the per-execution record of the fake transport. vrt runs one
 // execution at a time per process, so a single current pointer is enough.
@@ -108,6 +163,9 @@ func (fakeTransport) RoundTrip(req *http.Request) (*http.Response, error) {
 	}
 	st.given = append(st.given, a.name)
 	if a.net {
+		if a.timeout {
+			return nil, timeoutErr{req.URL.Host}
+		}
 		return nil, errors.New("dial tcp " + req.URL.Host + ": connect: connection refused")
 	}
 	body := ""
@@ -115,6 +173,8 @@ func (fakeTransport) RoundTrip(req *http.Request) (*http.Response, error) {
 	if a.status == 200 {
 		p := req.URL.Path
 		switch {
+		case a.garbage:
+			body = "<html>not what the caller expects</html>"
 		case strings.HasSuffix(p, "/locations"):
 			if !a.noLocs {
 				hdr.Set("Origin-Locations", "origin1:80,origin2:80")
@@ -135,6 +195,11 @@ func (fakeTransport) RoundTrip(req *http.Request) (*http.Response, error) {
 	} else {
 		body = "injected status"
 	}
+	var rc io.ReadCloser = io.NopCloser(strings.NewReader(body))
+	clen := int64(len(body))
+	if a.bodyErr {
+		rc, clen = brokenBody{}, -1
+	}
 	return &http.Response{
 		Status:        fmt.Sprintf("%d %s", a.status, http.StatusText(a.status)),
 		StatusCode:    a.status,
@@ -142,8 +207,8 @@ func (fakeTransport) RoundTrip(req *http.Request) (*http.Response, error) {
 		ProtoMajor:    1,
 		ProtoMinor:    1,
 		Header:        hdr,
-		Body:          io.NopCloser(strings.NewReader(body)),
-		ContentLength: int64(len(body)),
+		Body:          rc,
+		ContentLength: clen,
 		Request:       req,
 	}, nil
 }
@@ -172,8 +237,8 @@ func tagCall(name, kind string, answers []answer, f func(c tagclient.Client) err
 }
 
 func calls() []call {
-	std := []answer{ansOK, ansNet, ans404, ans500}
-	lst := []answer{ansOK, ansNet, ans404, ans500, ansPage}
+	std := tagAlphabet()
+	lst := tagListAlphabet()
 	cs := []call{
 		tagCall("Get", "multi", std, func(c tagclient.Client) error { _, err := c.Get("repo:tag"); return err }),
 		tagCall("Has", "multi", std, func(c tagclient.Client) error { _, err := c.Has("repo:tag"); return err }),
@@ -198,9 +263,17 @@ func calls() []call {
 		}),
 	}
 	cs = append(cs, call{name: "blobclient.Locations", kind: "multi", family: "blobclient.Locations",
-		answers: []answer{ansOK, ansNet, ans404, ansNoLocs},
+		answers: locAlphabet(),
 		run: func(l *fakeList) error {
 			_, err := blobclient.Locations(blobclient.NewProvider(), l, testDigest)
+			return err
+		}})
+	// the resolver every blobclient.ClusterClient method starts with (it only
+	// builds clients for the returned locations, it does not contact them)
+	cs = append(cs, call{name: "blobclient.ClientResolver.Resolve", kind: "multi", family: "blobclient clientResolver.Resolve",
+		answers: locAlphabet(),
+		run: func(l *fakeList) error {
+			_, err := blobclient.NewClientResolver(blobclient.NewProvider(), l).Resolve(testDigest)
 			return err
 		}})
 	return cs
@@ -222,6 +295,10 @@ type reqResult struct {
 	outside  []string // contacted hosts that are not in the current list
 	given    []string
 	errClass string
+	// the client moved on to another host after a host had sent an HTTP
+	// response (as opposed to moving on after connection-level failures only)
+	pastAnswered bool
+	retryable    int // answers with a retryable status (429/502/503/504)
 }
 
 // oneRequest runs one client request against list content hosts and returns
@@ -247,7 +324,21 @@ func oneRequest(c call, l *fakeList, hosts []string) reqResult {
 	if err != nil {
 		cls = "err"
 	}
-	return reqResult{contacts: len(st.contacts), distinct: len(seen), outside: outside, given: st.given, errClass: cls}
+	r := reqResult{contacts: len(st.contacts), distinct: len(seen), outside: outside, given: st.given, errClass: cls}
+	for i, g := range st.given {
+		if isRetryableName(g) {
+			r.retryable++
+		}
+		if g == ansNet.name || g == ansTimeout.name {
+			continue
+		}
+		for _, h := range st.contacts[i+1:] {
+			if h != st.contacts[i] {
+				r.pastAnswered = true
+			}
+		}
+	}
+	return r
 }
 
 // judge applies the statement to one request.
@@ -267,7 +358,15 @@ func judge(c call, listSize int, r reqResult) string {
 		}
 	default:
 		if r.distinct > 3 {
-			return fmt.Sprintf("%s: more than three distinct hosts tried\n%s contacted %d distinct hosts (answers %v), list size %d", c.family, c.name, r.distinct, r.given, listSize)
+			// same clause, two failure classes: the client walked past three
+			// hosts which were all unreachable (the sample is too large), or it
+			// failed over past a host which did answer (that answer did not
+			// count against the three-host budget).
+			cls := ""
+			if r.pastAnswered {
+				cls = " (fail-over past hosts which answered)"
+			}
+			return fmt.Sprintf("%s: more than three distinct hosts tried%s\n%s contacted %d distinct hosts (answers %v), list size %d", c.family, cls, c.name, r.distinct, r.given, listSize)
 		}
 	}
 	return ""
@@ -277,7 +376,7 @@ func judge(c call, listSize int, r reqResult) string {
 func harness(c call, n int) *vrt.Harness {
 	return &vrt.Harness{Name: fmt.Sprintf("%s/n=%d", c.name, n), Horizon: 100000, Body: func() (string, string) {
 		r := oneRequest(c, &fakeList{}, hostNames("a", n))
-		return fmt.Sprintf("contacts=%d distinct=%d %s %v", r.contacts, r.distinct, r.errClass, r.given), judge(c, n, r)
+		return fmt.Sprintf("contacts=%d distinct=%d %s retryable=%d pastAnswered=%v %v", r.contacts, r.distinct, r.errClass, r.retryable, r.pastAnswered, r.given), judge(c, n, r)
 	}}
 }
 
@@ -305,7 +404,7 @@ func relistHarness(name string, fam string, kind string, answers []answer, mk fu
 }
 
 func relistHarnesses(thorough bool) []*vrt.Harness {
-	std := []answer{ansOK, ansNet, ans404, ans500}
+	std := tagRelistAlphabet()
 	var hs []*vrt.Harness
 	shapes := [][3]int{{2, 2, 0}, {3, 1, 1}, {3, 3, 2}}
 	if thorough {
@@ -321,7 +420,7 @@ func relistHarnesses(thorough bool) []*vrt.Harness {
 				c := tagclient.NewClusterClient(l, nil)
 				return func() error { return c.CheckReadiness() }
 			}, sh[0], sh[1], sh[2]),
-			relistHarness("blobclient.Locations", "blobclient.Locations", "multi", []answer{ansOK, ansNet, ans404, ansNoLocs}, func(l *fakeList) func() error {
+			relistHarness("blobclient.Locations", "blobclient.Locations", "multi", locRelistAlphabet(), func(l *fakeList) func() error {
 				p := blobclient.NewProvider()
 				return func() error { _, err := blobclient.Locations(p, l, testDigest); return err }
 			}, sh[0], sh[1], sh[2]),
@@ -334,7 +433,7 @@ func listSizes(thorough bool) []int {
 	if thorough {
 		return []int{0, 1, 2, 3, 4, 5, 6, 7, 8, 12, 24, 36}
 	}
-	return []int{0, 1, 2, 3, 4, 6}
+	return []int{0, 1, 2, 3, 4, 5, 6, 8}
 }
 
 // trivial harnesses (empty list, calls the cluster client refuses without
@@ -438,12 +537,15 @@ func main() {
 
 	run := evid.New("C25", "exploration")
 	run.Rule = "E4: stringset.Set.Sample(n) for every set size 0..S x n 0..N (distinct = (size,n) pairs with 0<n<size). " +
-		"E1-sequential: for every cluster-client call (13 tagclient cluster methods through the real singleClient/httputil.Send, blobclient.Locations through the real HTTPProvider) x every host-list size, " +
-		"every sequence of per-contact answers {ok, network error, 404, 500[, next-page, 200-without-locations]} as environment choices (full tree, no deviation cap in effect); " +
-		"plus relist scenarios (list replaced between two requests of one client). distinct = outcome classes (contacts, distinct hosts, answer sequence) per harness."
-	run.Assume("http.DefaultTransport is replaced by a recording fake: a connection-level failure is modelled as a RoundTrip error (what httputil wraps as NetworkError)")
+		"E1-sequential: for every cluster-client call (13 tagclient cluster methods through the real singleClient/httputil.Send; blobclient.Locations and blobclient.ClientResolver.Resolve through the real HTTPProvider/HTTPClient) x every host-list size (including sizes above three), " +
+		"every sequence of per-contact answers as environment choices (full tree, no deviation cap in effect) over one member of every answer class httputil/the clients tell apart: " +
+		"{200, connection refused, client timeout (net.Error Timeout), 201, 202, 403, 404, 409, 429, 500, 502, 503, 504; tagclient also 200 with an unparsable body and 200 whose body breaks off; list calls also next-page; Locations/Resolve also 200-without-locations}; " +
+		"plus relist scenarios (list replaced between two requests of one long-lived client; both requests answered from {200, connection refused, timeout, 404, 500, 429, 503} resp. {200, connection refused, 404, 503, 200-without-locations}). " +
+		"Oracle per request: at most three distinct hosts contacted (exactly one for CheckReadiness), all from the list current at that request. distinct = outcome classes (contacts, distinct hosts, answer sequence) per harness."
+	run.Assume("http.DefaultTransport is replaced by a recording fake: a connection-level failure is modelled as a RoundTrip error (what httputil wraps as NetworkError), a slow host as a RoundTrip error with Timeout()==true returned at once (no real waiting), an HTTP answer as a response with that status")
 	run.Assume("which hosts are drawn is decided by Go's randomised map iteration; the oracle (count of distinct hosts, membership) must hold for every draw and answers are indexed by contact number, so one execution per answer sequence decides the clause for every draw")
-	run.Assume("small-scope: host lists of the sizes listed in coverage.list_sizes; set sizes for Sample as in the rule")
+	run.Assume("once a request has contacted more hosts than the statement allows the clause is violated; its remaining contacts are answered 200 without branching")
+	run.Assume("small-scope: host lists of the sizes listed in coverage.list_sizes; one status code per class (e.g. 500 for non-retryable 5xx); set sizes for Sample as in the rule")
 
 	if rp := run.ReplayPath(); rp != "" {
 		replay(run, rp)
@@ -458,6 +560,7 @@ func main() {
 		maxDur = 300
 	}
 	var reached3, multiExec, singleExec, trivialExec int64
+	var withRetryable, withRetryableBig, pastAnswered, withTimeout int64
 	for _, h := range allHarnesses(run.Thorough()) {
 		// determinism proof: the default schedule twice, and an all-network-failure
 		// schedule twice, give the same observation (draws differ, observation must not)
@@ -487,9 +590,27 @@ func main() {
 		} else {
 			res = rep.VRT(run, h, 64, 1, maxDur, fp)
 		}
+		big := false // single-request harness on a list of more than three hosts
+		if i := strings.Index(h.Name, "/n="); i >= 0 {
+			var n int
+			fmt.Sscanf(h.Name[i:], "/n=%d", &n)
+			big = n > 3
+		}
 		for k, cnt := range res.Outcomes {
 			if strings.Contains(k, "distinct=3 ") {
 				reached3 += int64(cnt)
+			}
+			if !strings.Contains(k, "retryable=0 ") && strings.Contains(k, "retryable=") {
+				withRetryable += int64(cnt)
+				if big {
+					withRetryableBig += int64(cnt)
+				}
+			}
+			if strings.Contains(k, "pastAnswered=true") {
+				pastAnswered += int64(cnt)
+			}
+			if strings.Contains(k, "timeout") {
+				withTimeout += int64(cnt)
 			}
 		}
 		if strings.Contains(h.Name, "CheckReadiness") {
@@ -502,5 +623,20 @@ func main() {
 	run.Set("executions_multi_attempt_calls", multiExec)
 	run.Set("executions_single_attempt_calls", singleExec)
 	run.Set("executions_trivial_harnesses", trivialExec)
+	run.Set("executions_with_retryable_status_answer", withRetryable)
+	run.Set("executions_with_retryable_status_answer_on_list_larger_than_three", withRetryableBig)
+	run.Set("executions_with_client_timeout_answer", withTimeout)
+	run.Set("executions_failing_over_past_an_answering_host", pastAnswered)
+	names := func(as []answer) (ns []string) {
+		for _, a := range as {
+			ns = append(ns, a.name)
+		}
+		return
+	}
+	run.Set("answer_alphabet_tagclient", names(tagAlphabet()))
+	run.Set("answer_alphabet_tagclient_list_calls", names(tagListAlphabet()))
+	run.Set("answer_alphabet_blobclient_locations", names(locAlphabet()))
+	run.Set("answer_alphabet_relist_tagclient", names(tagRelistAlphabet()))
+	run.Set("answer_alphabet_relist_blobclient_locations", names(locRelistAlphabet()))
 	run.Finish()
 }
